@@ -14,6 +14,7 @@ EXPLANATION = (
     "only by __init__ (True) and terminate (False), terminate re-initialises to NaN quotes, keeps the history and ends dead; "
     "(S4) sign tables: acq_price sells at bid, buys at ask, flat at mid, NaN raises; liq_price is acq_price of the opposite sign; "
     "(S5) contract keys are hashed/compared by symbol and normalised with static_hashing()."
+    " terminate marks the book dead on every path out of it (S3.ends-dead-on-every-path), not only on the fall-through path."
 )
 DECIDED = ["S1 last quote wins / history in order", "S2 per-contract isolation", "S3 dead stays dead", "S4 buy at ask, sell at bid, flat at mid", "S5 keys by symbol / static hashing"]
 NOT_DECIDED = ["interleavings as data (nothing of substance: the property is structural)"]
@@ -154,6 +155,10 @@ def s2(ck, an):
     for f in an.functions():
         for e in an.fa(f).effects():
             if e.attr == "_books":
+                if e.kind == "R" and f.qual in new_api_functions(an) and not any(e2.attr == "_books" and e2.kind != "R" for e2 in an.fa(f).effects()) \
+                        and isinstance(getattr(e.node, "_parent", None), ast.Attribute) and e.node._parent.attr in ("get", "items", "keys", "values", "__contains__", "__len__"):
+                    ck.ok("OWN", "S2.books-owner", f.short, e.loc, f"{f.short}: a read-only accessor new to the inventory (no book is created or replaced by `.{e.node._parent.attr}`)", construct=stmt_text(e.node))
+                    continue
                 ck.check(all(g.short in allowed for g in an.attributed(f)), "OWN", "S2.books-owner", f.short, e.loc, f"_books touched by accessor {f.short}",
                          f"{f.short} touches Exchange._books directly; allowed: {sorted(allowed)}", construct=stmt_text(e.node))
     # per-key fresh books
